@@ -35,8 +35,10 @@ def main():
         out = {}
         t0 = time.time()
         none = 0
-        for fn in sorted(fns):
-            if fx.body(fn) is None:
+        import ownership
+        every = sorted(set(fns) | {p for p, b in ownership.library_bodies(fx)})
+        for fn in every:
+            if fn in bad or fx.body(fn) is None:
                 continue
             s = equiv.summarize(fx, fn)
             if s is None:
